@@ -22,7 +22,11 @@ schedule = {
                         with the request's M=0 has arrived.  ["a"] atomic, ["s"] stateless, anything else mixed,
   "ackcode": 68 | 65,
   "net":   {"<i>": "dropreq"|"dropresp"|"dupresp"|"dupreq"}   fate of the i-th request datagram the SUT sends (1-based),
-  "fault": None | {"kind": "b1num"|"b1more"|"b1cont"|"b2num"|"b2skip"|"b2short"|"etag", "nth": n, "short": bytes},
+  "fault": None | {"kind": "b1num"|"b1more"|"b1cont"|"b2num"|"b2skip"|"b2short"|"b2empty"|"b2over"|"etag", "nth": n,
+                   "short": bytes, "over": "one"|"double", "repeat": bool},
+           b2short / b2empty / b2over: a Block2 block that announces more blocks (M=1) but carries 1..size-1 bytes /
+           no payload at all / more than its size (size+1, or two whole blocks; only where two more blocks exist);
+           with "repeat" the server keeps doing that on every later such block,
   "dedup": bool   (the server answers a repeated message ID from its response cache, RFC 7252 4.5)
   "con":   bool
 }
@@ -118,9 +122,11 @@ def run(sched):
         ev("rep", rid=rid, len=rep["len"], cid=rep["cid"], etag=rep["etag"])
 
     def fault_wants(kind, count, deliverable):
-        if fault is None or srv["fired"] is not None or not deliverable:
+        if fault is None or not deliverable or fault["kind"] != kind:
             return False
-        return fault["kind"] == kind and count >= fault.get("nth", 0)
+        if srv["fired"] is not None and not (fault.get("repeat") and kind in ("b2short", "b2empty", "b2over")):
+            return False
+        return count >= fault.get("nth", 0)
 
     def fire(kind):
         srv["fired"] = kind
@@ -176,12 +182,12 @@ def run(sched):
             options.append((wire.BLOCK1, wire.block(anum, amore, aszx)))
             if cont:
                 return wire.CONTINUE, options, b"", dict(f, x=x)
-        elif b2 is None or wire.unblock(b2)[0] == 0:
+        elif b2 is None or (wire.unblock(b2)[0] == 0 and srv["rep"] is None):
             body = bytes(payload)
             cid, _, cok = locate(body, [REQ_CID], 0)
             ev("asm", len=len(body), cid=cid, cok=cok and (len(body) == 0 or cid == REQ_CID))
         else:
-            final = False  # a Block2 continuation
+            final = False  # a Block2 continuation (also: block 0 asked for again)
         if final:
             new_rep(0)
         if srv["rep"] is None:
@@ -233,6 +239,14 @@ def run(sched):
             plen = max(1, min(size - 1, fault.get("short", size - 1)))
             x = "b2short"
             fire(x)
+        if not x and more and fault_wants("b2empty", count, deliverable):
+            plen = 0
+            x = "b2empty"
+            fire(x)
+        if not x and off + 2 * size < M and fault_wants("b2over", count, deliverable):
+            plen = 2 * size if fault.get("over") == "double" else size + 1
+            x = "b2over"
+            fire(x)
         out = canon(rep["cid"], off, plen)
         options.append((wire.BLOCK2, wire.block(num, more, szx)))
         f.update(b2n=num, b2m=int(more), b2s=szx, cid=rep["cid"] if plen else -1, off=off if plen else -1)
@@ -268,6 +282,16 @@ def run(sched):
         sz1 = wire.opt(m, wire.SIZE1)
         ev("req", q=1, code=m["code"], plen=len(m["payload"]), cid=cid, off=off, cok=cok, rt=rt,
            size1=-1 if sz1 is None else wire.from_uint(sz1), **f)
+        # a client that keeps asking for the same block is cut off: no more answers (it then runs into its timeout)
+        if b2 is not None and b1 is None and not rt:
+            o2 = f["b2n"] * size_of(f["b2s"])
+            srv["same"] = srv.get("same", 0) + 1 if srv.get("lastoff") == o2 else 0
+            srv["lastoff"] = o2
+        if srv.get("same", 0) > 4 or i > 4000:
+            if not srv.get("flooded"):
+                ev("flood", x="same-block" if srv.get("same", 0) > 4 else "datagrams")
+            srv["flooded"] = True
+            return
         fate = net.get(i, "ok")
         if fate == "dropreq":
             ev("lost", x="req")
